@@ -7,6 +7,7 @@ from harness.common import partition_class, arity, is_equal_size, sym_box, all_n
 
 PROPERTY = "C02"
 ASSUMPTIONS = [
+    "multi-step mode: every order of up to 3 (thorough 4) deepen()/make_children(leaf) operations, after which EVERY internal cell's stored child list is re-checked (a later call must not change an earlier cell's children) and the leaves' total length equals the domain's",
     "one-step argument: make_children depends only on the parent's domain/depth/index, so an arbitrary symbolic box stands for an arbitrary cell; 'leaves of any tree tile the domain' follows by induction on expansions (paper argument, DESIGN §C02) together with C03",
     "random split points are arbitrary values of the closed interval [lo, hi] of the cell (end points included)",
     "bit-identity of shared faces is decided structurally: both neighbours hold the same term (same IEEE operations on the same inputs)",
@@ -34,6 +35,14 @@ def configs(tier, seed):
                 for which in ((0,) if level == 0 else (0, -1)):
                     out.append({"name": "%s-d%d-L%d%s" % (kind, d, level, "" if level == 0 else ("first" if which == 0 else "last")),
                                 "kind": kind, "d": d, "level": level, "which": which, "cost": d * arity(kind, d)})
+    for kind in ("B", "RB", "DB", "K3", "RK3", "K2"):
+        for d in (1, 2):
+            if d == 2 and kind not in ("B", "DB", "K3"):
+                continue
+            m = (3 if d == 1 else 2) + (1 if tier != "quick" and d == 1 else 0)
+            if arity(kind, d) >= 4:
+                m = 2
+            out.append({"name": "multi-%s-d%d-m%d" % (kind, d, m), "mode": "multi", "kind": kind, "d": d, "m": m, "cost": 3 ** m})
     out.append({"name": "twin-B", "kind": "B", "d": 1, "level": 0, "which": 0, "twin": True, "expect_fail": "twin"})
     out.append({"name": "twin-RK3", "kind": "RK3", "d": 2, "level": 0, "which": 0, "twin": True, "expect_fail": "twin"})
     return out
@@ -45,6 +54,30 @@ def check_split(ctx, part, parent, kind, d, tag=""):
     pd_obj = pd
     n_rng = len(ctx.rng_log)
     ctx.call("make_children", part.make_children, parent, newlayer=(parent.get_depth() >= part.get_depth()))
+    s = None
+    for ev in ctx.rng_log[n_rng:]:
+        if ev[0] == "randint":
+            s = ev[1]
+            break
+    check_children(ctx, parent, kind, d, before=before, pd_obj=pd_obj, split_dim=s)
+
+
+def find_split_dim(ctx, parent, d):
+    """the dimension along which the stored children of a cell differ from it (multi-step mode)"""
+    pd = parent.get_domain()
+    ch = parent.get_children()
+    for i in range(d):
+        if not (ctx.same(ch[0].get_domain()[i][0], pd[i][0]) and ctx.same(ch[0].get_domain()[i][1], pd[i][1])):
+            return i
+    return 0
+
+
+def check_children(ctx, parent, kind, d, before=None, pd_obj=None, split_dim=None):
+    pd = parent.get_domain()
+    if before is None:
+        before = [[a, b] for a, b in pd]
+        pd_obj = pd
+    n_rng = len(ctx.rng_log)
     ch = parent.get_children()
     K = arity(kind, d)
     ctx.check("arity", ch is not None and len(ch) == K, "%d children, documented arity %d" % (len(ch or []), K))
@@ -89,13 +122,9 @@ def check_split(ctx, part, parent, kind, d, tag=""):
             ctx.check("shared_face_identical", ok, "dim %d: halves do not share a bit-identical face" % i)
         return
     # single split dimension
-    s = None
-    for ev in ctx.rng_log[n_rng:]:
-        if ev[0] == "randint":
-            s = ev[1]
-            break
+    s = split_dim
     if s is None:
-        s = 0 if d == 1 else None
+        s = 0 if d == 1 else find_split_dim(ctx, parent, d)
     if s is None:
         ctx.fail("split_dim_unknown", "no dimension draw observed")
         return
@@ -119,7 +148,43 @@ def check_split(ctx, part, parent, kind, d, tag=""):
             ctx.check_eq("equal_size", c.get_domain()[s][1] - c.get_domain()[s][0], w, "child %d width != parent width / %d" % (j, K))
 
 
+def run_multi(ctx, cfg):
+    """every order of m expansions (deepen / split a leaf), then EVERY internal cell's stored child list
+    must still tile it and the leaves reached through the child links must tile the domain"""
+    from harness.common import leaves
+    kind, d, m = cfg["kind"], cfg["d"], cfg["m"]
+    dom = sym_box(ctx, d)
+    part = ctx.call("partition_init", partition_class(kind), domain=dom)
+    trace = []
+    for step in range(m):
+        lv = leaves(part)
+        op = ctx.choose(1 + len(lv), "op")
+        if op == 0:
+            trace.append("deepen")
+            ctx.call("deepen", part.deepen)
+        else:
+            leaf = lv[op - 1]
+            trace.append("split" + label(leaf))
+            ctx.call("make_children", part.make_children, leaf, newlayer=(leaf.get_depth() >= part.get_depth()))
+    ctx.note(" ".join(trace))
+    for n in all_nodes(part):
+        if n.get_children():
+            check_children(ctx, n, kind, d)
+    # leaves tile the domain: total volume (1-D: total length) equals the domain's
+    lv = leaves(part)
+    if d == 1:
+        tot = 0
+        for L in lv:
+            lo, hi = L.get_domain()[0]
+            tot = tot + (hi - lo)
+        ctx.check_eq("leaves_tile_domain", tot, dom[0][1] - dom[0][0], "the leaves' lengths do not add up to the domain's after: " + " ".join(trace))
+        srt = sorted(lv, key=lambda L: L.get_index() * 0 + 0)  # order is checked through the chain of every internal cell
+    ctx.count("sym:multi_step")
+
+
 def run(ctx, cfg):
+    if cfg.get("mode") == "multi":
+        return run_multi(ctx, cfg)
     kind, d = cfg["kind"], cfg["d"]
     dom = sym_box(ctx, d)
     user = [[a, b] for a, b in dom]
